@@ -76,6 +76,10 @@ type Disk struct {
 	// Content returns the bytes of a write of n bytes at offset off into the
 	// inode (the trace carries no payloads).
 	Content func(ino *Inode, off, n int64) ([]byte, error)
+	// Capture is set when the trace was recorded with a string limit larger
+	// than every write (strace -s): the payload of each write is then taken
+	// from the trace itself and Content is not consulted.
+	Capture bool
 }
 
 // NewDisk returns a model watching every path under one of roots, with the
@@ -451,9 +455,19 @@ func (d *Disk) Apply(idx int, ev *Event, norm Norm) (Effect, error) {
 			eff.Desc += fmt.Sprintf(" short=%d", n)
 		}
 		if n > 0 {
-			data, err := d.Content(ino, off, n)
-			if err != nil {
-				return eff, err
+			var data []byte
+			if d.Capture {
+				str, ok := unquote(arg(1))
+				if !ok || int64(len(str)) < n {
+					return eff, fmt.Errorf("crashfs: cannot decode the payload of a %d-byte write to %s (got %d bytes, decoded=%v)", n, norm(of.path), len(str), ok)
+				}
+				data = []byte(str[:n])
+			} else {
+				var err error
+				data, err = d.Content(ino, off, n)
+				if err != nil {
+					return eff, err
+				}
 			}
 			ino.write(off, data)
 			eff.Touched = true
